@@ -33,10 +33,13 @@ structure Cfg where
   syncDial : Bool := true   -- the dial is a plain call of the request's own task: no `go` statement in the function,
                             -- the DialNetworkTLS call not inside a function literal
   dialDeadlineMs : Nat := 0 -- with an asynchronous dial: after how long the request stops waiting for it (0: never)
+  serial : Bool := true     -- every call of the client function is an ordinary call made by the charging operation
+                            -- itself (which holds the subscriber lock): no call site sits in a `go` statement, a deferred
+                            -- call or a function literal, directly or through a helper function
 deriving DecidableEq, Repr
 
 def Cfg.good (c : Cfg) : Bool :=
-  c.closesConn && c.ownChan && c.buffered && c.nonBlocking && decide (0 < c.timeoutMs) && c.syncDial
+  c.closesConn && c.ownChan && c.buffered && c.nonBlocking && decide (0 < c.timeoutMs) && c.syncDial && c.serial
 
 inductive Outcome where
   | own (k : Nat)               -- request k acted upon the answer to request k
@@ -93,13 +96,15 @@ def drain (cfg : Cfg) (s : St) : St :=
 def step (cfg : Cfg) (s : St) : Ev → St
   | .start =>
     if s.wedged then s
-    else if s.cur.isSome || s.returning.isSome || s.dialing.isSome then s   -- subscriber lock: one request at a time
+    else if cfg.serial && (s.cur.isSome || s.returning.isSome || s.dialing.isSome) then s   -- subscriber lock: one request at a time
+    -- (a request made in the background - `serial = false` - starts while another one waits: that one keeps its
+    --  connection, is no longer the registered receiver and will not be heard of again)
     else if s.blocked > 0 then { s with wedged := true }     -- Handle() waits for the write lock for ever
     else
       drain cfg { s with next := s.next + 1, cur := some s.next, conns := s.next :: s.conns, reg := chanOf cfg s.next }
   | .startSlow =>
     if s.wedged then s
-    else if s.cur.isSome || s.returning.isSome || s.dialing.isSome then s
+    else if cfg.serial && (s.cur.isSome || s.returning.isSome || s.dialing.isSome) then s
     else if s.blocked > 0 then { s with wedged := true }
     else { s with next := s.next + 1, dialing := some s.next, reg := chanOf cfg s.next }   -- Handle() precedes the dial
   | .dialDone k =>
